@@ -114,8 +114,7 @@ def flush {V : Type} (guarded : Bool) (s : State V) : State V × Option (List V)
   if guarded && s.saves.length + s.removes.length == 0 then (s, none)
   else ({ s with saves := [], removes := [] }, some s.l)
 
-/-! The operations of a history, and the server around the table: the state, the table file
-    (`none` = no file yet) — `LoadAll` of a missing file yields `dflt`. -/
+/-! The operations of a history, and the server around the table: the state and the table file. -/
 inductive Op (V : Type) where
   | save (v : V) (flag : Bool)
   | del (name : Key)
@@ -123,16 +122,32 @@ inductive Op (V : Type) where
   | restart
   deriving Repr
 
+/-- the table file as the JSON provider sees it -/
+inductive Disk (V : Type) where
+  | missing                   -- os.Stat: not exist
+  | table (t : List V)        -- a JSON array that `json.Unmarshal` accepts
+  | corrupt                   -- empty / truncated / not JSON: `LoadAll` returns an error
+  deriving Repr
+
 structure Server (V : Type) where
   st : State V
-  disk : Option (List V)
+  disk : Disk V
 
-/-- `LoadAll` on a readable file is the identity on the abstract content (assumption on
-    encoding/json: `Unmarshal (Marshal t) = t`, exercised by the correspondence run) -/
-def loadAll {V : Type} (dflt : List V) (disk : Option (List V)) : List V := disk.getD dflt
+/-- jsonProvider.LoadAll: a missing file yields `dflt` (the default administrator / no route),
+    an unreadable one an error (`none`).  On a readable file it is the identity on the abstract
+    content — assumption on encoding/json: `Unmarshal (Marshal t) = t`, exercised by the
+    correspondence run. -/
+def loadAll {V : Type} (dflt : List V) : Disk V → Option (List V)
+  | .missing => some dflt
+  | .table t => some t
+  | .corrupt => none
 
-def Server.boot {V : Type} (o : Ops V) (dflt : List V) (disk : Option (List V)) : Server V :=
-  { st := reset o (loadAll dflt disk), disk := disk }
+/-- a server start: `Reset(provider)`.  `LoadAll` failing makes Reset panic ("Load user fail")
+    after it has emptied the table. -/
+def Server.boot {V : Type} (o : Ops V) (dflt : List V) (disk : Disk V) : Server V × Bool :=
+  match loadAll dflt disk with
+  | some loaded => ({ st := reset o loaded, disk := disk }, true)
+  | none => ({ st := State.empty, disk := disk }, false)
 
 def Server.step {V : Type} (o : Ops V) (guarded : Bool) (dflt : List V) (sv : Server V) : Op V → Server V
   | .save v flag => { sv with st := (save o sv.st v flag).1 }
@@ -140,12 +155,11 @@ def Server.step {V : Type} (o : Ops V) (guarded : Bool) (dflt : List V) (sv : Se
   | .flush =>
     match flush guarded sv.st with
     | (st', none) => { sv with st := st' }
-    | (st', some full) => { st := st', disk := some full }
-  | .restart => Server.boot o dflt sv.disk
+    | (st', some full) => { st := st', disk := .table full }       -- EncodeJSONFile(p.filePath, full)
+  | .restart => (Server.boot o dflt sv.disk).1
 
 def Server.run {V : Type} (o : Ops V) (guarded : Bool) (dflt : List V) (sv : Server V) (ops : List (Op V)) : Server V :=
   ops.foldl (Server.step o guarded dflt) sv
-
 
 /-- the representation invariant of a table: keys are distinct, every entry is filed under its
     own key, and the list holds exactly the map's entries (in this model: in the same order) -/
